@@ -117,6 +117,12 @@ def edit_source(r, src, state, force=None):
             mt += NS
         versions[(rel, size, mt)] = seed
         state[rel] = (seed, size, mt)
+    # keep the tree well-formed whatever the edits did: a path below a regular file is dropped
+    names = sorted(k for k in state if not k.startswith("\0"))
+    for rel in names:
+        parts = rel.split("/")
+        if any("/".join(parts[:i]) in state for i in range(1, len(parts))):
+            state.pop(rel, None)
     real = {k: v for k, v in state.items() if not k.startswith("\0")}
     for rel, (seed, size, mt) in sorted(real.items()):
         p = os.path.join(src, rel)
@@ -180,7 +186,7 @@ def run_history(sc, seed, i, known, stats):
     state = {}
     viol, hits, diffs, cases, obs = [], {}, [], [], []
     steps = r.randrange(3, 6)
-    use_delete = "delete" in name or (r.random() < 0.25 and name in ("cache", "resume", "state"))   # a --delete run removes its own database (KF1): plain db histories keep it
+    use_delete = "delete" in name or (r.random() < 0.25 and name in ("cache", "resume"))   # a --delete run removes its own database (KF1): plain db histories keep it
     thr = r.choice([50, 100, 30])
     history = []
     for k in range(1, steps + 1):
@@ -204,7 +210,8 @@ def run_history(sc, seed, i, known, stats):
         for which, dst, extra in (("plain", da, [a for a in plain if a != "--checksum"]), ("aux", db, [a for a in aux if a != "--checksum"])):
             ids = ew.Ids()
             hidden = set(p for x in dmg if x[0] == "valid-state" for p in x[1]) if which == "aux" else set()
-            # Caches.plan_resume: paths the state file lists as completed are not planned
+            # Caches.plan_resume: paths the state file lists as completed are not planned (state histories run without --delete:
+            # the deletion plan still sees the hidden paths, which the single source list of Engine.run cannot express)
             sel = (lambda sl: [t for t in sl if t[1] not in hidden]) if hidden else None
             case, ob, raw = ew.run_once(sc, src, dst, fl, ids, k=k, extra_args=extra, select=sel)
             if which == "aux" and "--checksum-db=true" in aux and ".sy-checksums.db" not in raw["before"]:
